@@ -94,11 +94,17 @@ SkelOutShape(s, k) == LET t == R[s].outs[k] IN t \in 0..(NT(s)-1) => R[s].shp[t+
 SkelOutName(s, k) == LET t == R[s].outs[k] IN t \in 0..(NT(s)-1) => R[s].nm[t+1] = G[s].nm[G[s].gouts[k]+1]
 SkelIONames(s) == Len(R[s].outs) = Len(G[s].gouts) => \A k \in 1..Len(R[s].outs) : SkelOutName(s, k) /\ SkelOutShape(s, k)
 \* (e) every signature entry denotes the tensor of the corresponding subgraph input/output
-SkelSig(s) == R[s].sigin = R[s].gins /\ R[s].sigout = R[s].outs
+\* (G[s].siginpos[e] / sigoutpos[e]: position of signature entry e's tensor among the subgraph inputs / outputs of the INPUT model)
+SkelSig(s) ==
+  /\ Len(R[s].sigin) = Len(G[s].siginpos) /\ Len(R[s].sigout) = Len(G[s].sigoutpos)
+  /\ \A e \in 1..Len(R[s].sigin) : G[s].siginpos[e] \in 1..Len(R[s].gins) /\ R[s].sigin[e] = R[s].gins[G[s].siginpos[e]]
+  /\ \A e \in 1..Len(R[s].sigout) : G[s].sigoutpos[e] \in 1..Len(R[s].outs) /\ R[s].sigout[e] = R[s].outs[G[s].sigoutpos[e]]
 \* (f) model I/O stays float32 unless a rule covers INPUT / OUTPUT
+\*     (a non-float input / output, e.g. lookup indices, keeps its own dtype)
 SkelIOType(s) ==
-  /\ inmode.m = "NOQ" => \A k \in 1..Len(R[s].gins) : R[s].dt[R[s].gins[k]+1] = "f32"
-  /\ outmode.m = "NOQ" => \A k \in 1..Len(R[s].outs) : R[s].outs[k] \in 0..(NT(s)-1) => R[s].dt[R[s].outs[k]+1] = "f32"
+  /\ inmode.m = "NOQ" => \A k \in 1..Len(R[s].gins) : R[s].dt[R[s].gins[k]+1] = G[s].dt0[G[s].gins[k]+1]
+  /\ outmode.m = "NOQ" => \A k \in 1..Len(R[s].outs) :
+        (R[s].outs[k] \in 0..(NT(s)-1) /\ k <= Len(G[s].gouts)) => R[s].dt[R[s].outs[k]+1] = G[s].dt0[G[s].gouts[k]+1]
 Skeleton(s) == SkelOps(s) /\ SkelTensors(s) /\ SkelIO(s) /\ SkelIONames(s) /\ SkelSig(s) /\ SkelIOType(s)
 
 \* Known finding F7 (recorded, not repaired; /verif/known_findings.json): when a QUANTIZE/DEQUANTIZE is inserted
